@@ -386,7 +386,7 @@ impl TypedScenario for C13Raw {
     }
     fn budget(&self, tier: Tier) -> usize {
         match tier {
-            Tier::Quick => 6000,
+            Tier::Quick => 16_000,
             Tier::Thorough => 2_000_000,
         }
     }
